@@ -13,6 +13,7 @@ import (
 	"sync/atomic"
 	"time"
 
+	"github.com/pion/ice/v4/internal/verifhook"
 	"github.com/pion/logging"
 	"github.com/pion/transport/v4/packetio"
 )
@@ -169,6 +170,7 @@ func (t *tcpPacketConn) AddConn(conn net.Conn, firstPacketData []byte) error {
 	t.wg.Add(1)
 	go func() {
 		defer t.wg.Done()
+		verifhook.Yield("tcppacketconn.AddConn.beforeFirstPacket")
 		if firstPacketData != nil {
 			select {
 			case <-t.closedChan:
